@@ -228,7 +228,7 @@ def r09_5(ctx, P) -> None:
     ctx.check(fresh, "R09.5", init, "buffer list", "the shared list consists of one fresh deque per child")
     ok = False
     for s in own_nodes(node):
-        if isinstance(s, ast.GeneratorExp) and isinstance(s.elt, ast.Call) and norm(s.elt.func) == "tee_peer":
+        if isinstance(s, ast.GeneratorExp) and isinstance(s.elt, ast.Call) and norm(s.elt.func) == ctx.unit("itertools.tee_peer").node.name:
             kws = {k.arg: k.value for k in s.elt.keywords}
             pos = dict(zip(["iterator", "buffer", "peers", "lock"], s.elt.args))
             args = {P_key: kws.get(P[P_key], pos.get(P_key)) for P_key in ("buffer", "peers")}
@@ -250,7 +250,7 @@ def r09_7(ctx, P) -> None:
                 tee_fields = {tgt.attr}
     adders = {"append", "appendleft", "extend", "extendleft", "insert", "__setitem__", "rotate", "reverse"}
     for u in real_units(ctx):
-        if u.short == "itertools.tee_peer":
+        if u is ctx.unit("itertools.tee_peer"):
             continue
         for n in own_nodes(u.node):
             if isinstance(n, ast.Call) and isinstance(n.func, ast.Attribute) and n.func.attr in adders:
